@@ -1,3 +1,4 @@
+use vstd::std_specs::cmp::OrdSpec as VxOrdSpec;
 // ===== prelude/iter.rs — std iterator sources/adapters used by the units, ASSUMED contracts = std documentation =====
 // R4: `.iter()` on Vec / slice ranges / TypeIds is renamed `.vx_iter()` and returns this iterator whose ghost
 // `rest()` is the sequence still to be yielded. Adapters are treated as evaluated when built (laziness dropped:
@@ -133,6 +134,47 @@ pub trait VxVecExt<T> {
                                 && (o == core::cmp::Ordering::Less || (o == core::cmp::Ordering::Equal && pi[i] < pi[j]))
             };
 
+    /// `<[T]>::sort_unstable_by`: a permutation of the input, no element Greater than a later one; equal elements may
+    /// be reordered (NOT stable)
+    fn vx_sort_unstable_by<F: FnMut(&T, &T) -> core::cmp::Ordering>(&mut self, compare: F)
+        requires
+            forall|i: int, j: int| 0 <= i < old(self).vx_view().len() && 0 <= j < old(self).vx_view().len()
+                ==> #[trigger] compare.requires((&old(self).vx_view()[i], &old(self).vx_view()[j])),
+        ensures
+            exists|pi: Seq<int>| #![trigger is_perm(pi, old(self).vx_view().len() as int)] {
+                &&& is_perm(pi, old(self).vx_view().len() as int)
+                &&& final(self).vx_view().len() == old(self).vx_view().len()
+                &&& forall|i: int| 0 <= i < pi.len() ==> #[trigger] final(self).vx_view()[i] == old(self).vx_view()[pi[i]]
+                &&& forall|i: int, j: int| #![trigger final(self).vx_view()[i], final(self).vx_view()[j]] 0 <= i < j < pi.len()
+                        ==> exists|o: core::cmp::Ordering| #[trigger] compare.ensures((&final(self).vx_view()[i], &final(self).vx_view()[j]), o)
+                                && o != core::cmp::Ordering::Greater
+            };
+
+    /// `<[T]>::sort_by_key` (stable) / `sort_unstable_by_key` (not stable): sorted by the key the closure returns
+    fn vx_sort_by_key<K: Ord, F: FnMut(&T) -> K>(&mut self, key: F)
+        requires forall|i: int| 0 <= i < old(self).vx_view().len() ==> #[trigger] key.requires((&old(self).vx_view()[i],)),
+        ensures
+            exists|pi: Seq<int>| #![trigger is_perm(pi, old(self).vx_view().len() as int)] {
+                &&& is_perm(pi, old(self).vx_view().len() as int)
+                &&& final(self).vx_view().len() == old(self).vx_view().len()
+                &&& forall|i: int| 0 <= i < pi.len() ==> #[trigger] final(self).vx_view()[i] == old(self).vx_view()[pi[i]]
+                &&& forall|i: int, j: int| #![trigger final(self).vx_view()[i], final(self).vx_view()[j]] 0 <= i < j < pi.len()
+                        ==> exists|ki: K, kj: K| #[trigger] key.ensures((&final(self).vx_view()[i],), ki) && #[trigger] key.ensures((&final(self).vx_view()[j],), kj)
+                                && (ki.cmp_spec(&kj) == core::cmp::Ordering::Less || (ki.cmp_spec(&kj) == core::cmp::Ordering::Equal && pi[i] < pi[j]))
+            };
+
+    fn vx_sort_unstable_by_key<K: Ord, F: FnMut(&T) -> K>(&mut self, key: F)
+        requires forall|i: int| 0 <= i < old(self).vx_view().len() ==> #[trigger] key.requires((&old(self).vx_view()[i],)),
+        ensures
+            exists|pi: Seq<int>| #![trigger is_perm(pi, old(self).vx_view().len() as int)] {
+                &&& is_perm(pi, old(self).vx_view().len() as int)
+                &&& final(self).vx_view().len() == old(self).vx_view().len()
+                &&& forall|i: int| 0 <= i < pi.len() ==> #[trigger] final(self).vx_view()[i] == old(self).vx_view()[pi[i]]
+                &&& forall|i: int, j: int| #![trigger final(self).vx_view()[i], final(self).vx_view()[j]] 0 <= i < j < pi.len()
+                        ==> exists|ki: K, kj: K| #[trigger] key.ensures((&final(self).vx_view()[i],), ki) && #[trigger] key.ensures((&final(self).vx_view()[j],), kj)
+                                && ki.cmp_spec(&kj) != core::cmp::Ordering::Greater
+            };
+
     /// `<[T]>::fill`
     fn vx_fill(&mut self, value: T)
         ensures final(self).vx_view() == Seq::new(old(self).vx_view().len(), |i: int| value);
@@ -148,6 +190,12 @@ impl<T> VxVecExt<T> for Vec<T> {
     fn vx_iter(&self) -> (r: VxIter<&T>) { unimplemented!() }
     #[verifier::external_body]
     fn vx_sort_by<F: FnMut(&T, &T) -> core::cmp::Ordering>(&mut self, compare: F) { unimplemented!() }
+    #[verifier::external_body]
+    fn vx_sort_unstable_by<F: FnMut(&T, &T) -> core::cmp::Ordering>(&mut self, compare: F) { unimplemented!() }
+    #[verifier::external_body]
+    fn vx_sort_by_key<K: Ord, F: FnMut(&T) -> K>(&mut self, key: F) { unimplemented!() }
+    #[verifier::external_body]
+    fn vx_sort_unstable_by_key<K: Ord, F: FnMut(&T) -> K>(&mut self, key: F) { unimplemented!() }
     #[verifier::external_body]
     fn vx_fill(&mut self, value: T) { unimplemented!() }
 }
